@@ -154,6 +154,35 @@ theorem attachBundle_ok (h1 : Heap) (d b' : Nat) (idArg : NameArg) (hne : b' ≠
         · simp [setCont, hvr']
         · simp [setCont, hv']
 
+/-- the identifier a successfully attached bundle ends up with is what `valid_qualified_name` made, in the bundle's own
+    scope linked to the document, of the identifier asked for -/
+theorem attachBundle_ok_id (h1 : Heap) (d b' : Nat) (idArg : NameArg) (hne : b' ≠ d) (hb : b' < h1.conts.size)
+    (h' : Heap) (hres : h1.attachBundle d b' idArg = (h', none)) :
+    ∃ q, ((h1.linkParent d b').validName b' (h1.defaultBundleId b' idArg)).2 = some q ∧ (h'.cont b').id = some q := by
+  unfold attachBundle at hres
+  split at hres
+  · simp at hres
+  · have hv : ∀ x, ((h1.linkParent d b').validName b' x).1.conts = h1.conts := fun x => by unfold validName; rfl
+    generalize hvn : (h1.linkParent d b').validName b' (h1.defaultBundleId b' idArg) = vn at hres
+    have hv' := hv (h1.defaultBundleId b' idArg)
+    rw [hvn] at hv'
+    obtain ⟨h3, vid⟩ := vn
+    simp only at hv'
+    cases vid with
+    | none => simp at hres
+    | some q =>
+      simp only at hres
+      refine ⟨q, rfl, ?_⟩
+      unfold registerBundle at hres
+      simp only [] at hres
+      split at hres
+      · simp at hres
+      · simp only [Prod.mk.injEq, and_true] at hres
+        have hb3 : b' < h3.conts.size := by rw [hv']; exact hb
+        rw [← hres]
+        rw [cont_setCont_self _ b' _ (by simpa [setCont] using hb3), cont_setCont_ne _ d b' _ hne,
+          cont_setCont_self h3 b' _ hb3]
+
 /-- **`add_bundle` of a stand-alone bundle**: on success the bundle itself, with all its records, is what the document now
     lists under the resolved identifier, which the document did not use before; the document's own records are untouched -/
 theorem c09_addBundle_attaches_bundle (h : Heap) (d b : Nat) (idArg : NameArg) (nsOrder : List Ns)
